@@ -46,12 +46,19 @@ def cases(draw, tier):
     if draw(st.integers(0, 2)) == 0:
         # extreme scales: core k is multiplied by 2**shift[k]; single cores stay representable, products do not
         lim = 400 if tier == "quick" else 480
-        pat = draw(st.sampled_from(["up", "down", "alternate", "free"]))
+        pat = draw(st.sampled_from(["up", "down", "alternate", "free", "one_huge", "one_tiny"]))
         d = len(spec["n"])
-        mag = [draw(st.integers(lim // 2, lim)) for _ in range(d)]
-        sign = {"up": [1] * d, "down": [-1] * d, "alternate": [(-1) ** k for k in range(d)],
-                "free": [draw(st.sampled_from([-1, 1])) for _ in range(d)]}[pat]
-        case["shift"] = [m_ * s_ for m_, s_ in zip(mag, sign)]
+        if pat in ("one_huge", "one_tiny"):
+            # a single core whose own entries are beyond 1e154 / below 1e-154 (their squares leave the float range), the rest ordinary
+            k1 = draw(st.integers(0, d - 1))
+            big = draw(st.integers(520, 900)) * (1 if pat == "one_huge" else -1)
+            case["shift"] = [big if k == k1 else draw(st.integers(-20, 20)) for k in range(d)]
+            case["plain_too"] = True
+        else:
+            mag = [draw(st.integers(lim // 2, lim)) for _ in range(d)]
+            sign = {"up": [1] * d, "down": [-1] * d, "alternate": [(-1) ** k for k in range(d)],
+                    "free": [draw(st.sampled_from([-1, 1])) for _ in range(d)]}[pat]
+            case["shift"] = [m_ * s_ for m_, s_ in zip(mag, sign)]
     return case
 
 
@@ -72,7 +79,7 @@ def check_orth(ctx, Y, F, Z, p, k, stab, tF, nrmY):
         G = Z[j]
         ctx.check(oracle.ortho_defect_right(G) <= 64 * EPS * max(G.shape[0], G.shape[1] * G.shape[2]),
                   "orthogonalize: core right of the pivot does not have orthonormal rows", core=j, k=k, defect=oracle.ortho_defect_right(G))
-    piv = float(np.ldexp(fro(Z[k]), p))
+    piv = fro(np.ldexp(Z[k], p))             # rescale before squaring: a core of a huge tensor may hold entries beyond 1e154
     ctx.check(abs(piv - nrmY) <= tF, "orthogonalize: pivot core does not carry the Frobenius norm", pivot=piv, norm=nrmY, tol=tF, k=k)
     for j in range(1, d):
         ctx.check(rout[j] <= rin[j], "orthogonalize: a rank increased", bond=j, rin=rin, rout=rout, k=k)
@@ -118,6 +125,13 @@ def prop_orth(case, ctx):
                           p=p, shift_sum=sum(sh), log2_norm_base=math.log2(nrmY), k=k)
             check_orth(ctx, Y, F, Z, p - sum(sh), k, True, tF, nrmY)
             ctx.inner(1, nontrivial_key=f"x{k}")
+            if case.get("plain_too"):
+                # the whole tensor is still representable: the plain variant must work as well (2**-sum(shift) removes the scale)
+                Zp = ctx.lib(teneva.orthogonalize, Ys, k, False)
+                why = oracle.wellformed(Zp, oracle.shape_of(Y))
+                ctx.check(why is None, f"orthogonalize (one extremely scaled core): result not well-formed / finite: {why}", k=k, shift=sh)
+                check_orth(ctx, Y, F, Zp, -sum(sh), k, False, tF, nrmY)
+                ctx.inner(1)
         ctx.nontrivial(True)
         return
     snap = snapshot(Y)
